@@ -110,7 +110,7 @@ def scale_bits(b, k):
 
 
 def run(chk, replay=None):
-    proof = proof_check_streams(PID, "C04Streams")
+    proof = proof_check_streams(PID, "C04Streams", extra=("CtorStreams",))
     drv = build_driver()
     exe = build_harness("default")
     cfg = harness_config(exe)
